@@ -72,7 +72,9 @@ def rule_one_append(ctx, rep):
         lines_param = pp_[1] if len(pp_) > 1 else "original_lines"
         loops = [n for n in walk_no_nested(fn.node) if isinstance(n, ast.For) and lines_param in names_in(n.iter)]
         if not loops:
-            rep.check("R-ONE-APPEND-PER-LINE", q, fn.loc(), False, "loop", "no loop over the input lines")
+            ok1, ok2, why = _comprehension_form(ctx, fn, lines_param)
+            rep.check("R-ONE-APPEND-PER-LINE", q, fn.loc(), ok1, "one-append", why or "the output lines are not one (possibly substituted) line per input line")
+            rep.check("R-ONE-APPEND-PER-LINE", q, fn.loc(), ok2, "change-iff-edited", why or "a Change is not recorded exactly for the lines whose substitution differs")
             continue
         lp = loops[0]
         # loop var for the line
@@ -169,6 +171,48 @@ def rule_one_append(ctx, rep):
             )
             rep.check("R-ONE-APPEND-PER-LINE", q, fn.loc(subs[0]) if subs else fn.loc(), ok2, "sast-gate",
                       "the SAST regex pipeline substitutes on a line that is not gated by line_matches_result (lines without a finding are edited)")
+
+
+def _comprehension_form(ctx, fn: FuncInfo, lines_param: str):
+    """The loop-free spelling: `updated = [sub(line) for line in lines]` and `changes = [Change(..) for i, (line, new) in
+    enumerate(zip(lines, updated)) if line != new]`.  -> (one output line per input line, change iff edited, why not)"""
+    r = ctx.resolver(fn)
+    updated_name = None
+    for a in walk_no_nested(fn.node):
+        if isinstance(a, ast.Assign) and len(a.targets) == 1 and isinstance(a.targets[0], ast.Name) and isinstance(a.value, ast.ListComp):
+            c = a.value
+            if len(c.generators) == 1 and not c.generators[0].ifs and isinstance(c.generators[0].target, ast.Name) \
+                    and isinstance(c.generators[0].iter, ast.Name) and c.generators[0].iter.id == lines_param:
+                v = c.generators[0].target.id
+                if (isinstance(c.elt, ast.Name) and c.elt.id == v) or _is_substitution(c.elt, v):
+                    updated_name = a.targets[0].id
+    if updated_name is None:
+        return False, False, "no list built with one (substituted) element per input line"
+    rets = [x.value for x in walk_no_nested(fn.node) if isinstance(x, ast.Return) and x.value is not None]
+    returned = bool(rets) and all(updated_name in names_in(v) for v in rets)
+    stores = [c for c in walk_no_nested(fn.node) if isinstance(c, ast.Call) and isinstance(c.func, ast.Attribute) and isinstance(c.func.value, ast.Name)
+              and c.func.value.id == updated_name and c.func.attr in ("append", "extend", "insert", "pop", "remove", "clear")]
+    ok1 = returned and not stores
+    ok2 = False
+    why = ""
+    for c in walk_no_nested(fn.node):
+        if isinstance(c, ast.ListComp) and isinstance(c.elt, ast.Call) and (last_attr(c.elt.func) or "") == "Change" and len(c.generators) == 1:
+            g = c.generators[0]
+            it = g.iter
+            while isinstance(it, ast.Call) and isinstance(it.func, ast.Name) and it.func.id in ("enumerate", "list") and it.args:
+                it = it.args[0]
+            it = r.expand(it) if isinstance(it, ast.Name) else it
+            pair = None
+            if isinstance(it, ast.Call) and isinstance(it.func, ast.Name) and it.func.id == "zip" and len(it.args) == 2 and all(isinstance(x, ast.Name) for x in it.args):
+                if [x.id for x in it.args] == [lines_param, updated_name]:
+                    names = [x.id for x in ast.walk(g.target) if isinstance(x, ast.Name)]
+                    pair = names[-2:] if len(names) >= 2 else None
+            differs = pair is not None and any(
+                isinstance(f, ast.Compare) and len(f.ops) == 1 and isinstance(f.ops[0], ast.NotEq) and {unparse(f.left), unparse(f.comparators[0])} == set(pair) for f in g.ifs)
+            ok2 = differs and len(g.ifs) == 1
+            if not ok2:
+                why = "the Change entries are not filtered by `line != substituted line` over zip(input lines, output lines)"
+    return ok1, ok2, why
 
 
 def _is_substitution(v, line_var: str) -> bool:
